@@ -64,7 +64,14 @@ func (d *DateTime) UnmarshalJSON(bytes []byte) error {
 	if err != nil {
 		datetime, err = time.ParseInLocation("2006-01-02 15:04:05 MST", s, time.Local)
 		if err != nil {
-			return err
+			// ... numeric zone abbreviations (e.g. +0545 for Asia/Kathmandu) cannot be parsed as 'MST'
+			if len(s) > 20 && s[19] == ' ' {
+				datetime, err = time.ParseInLocation("2006-01-02 15:04:05", s[:19], time.Local)
+			}
+
+			if err != nil {
+				return err
+			}
 		}
 	}
 
